@@ -1,0 +1,294 @@
+// Copyright 2025 Anapaya Systems
+//
+// Licensed under the Apache License, Version 2.0 (the "License");
+// you may not use this file except in compliance with the License.
+// You may obtain a copy of the License at
+//
+//   http://www.apache.org/licenses/LICENSE-2.0
+//
+// Unless required by applicable law or agreed to in writing, software
+// distributed under the License is distributed on an "AS IS" BASIS,
+// WITHOUT WARRANTIES OR CONDITIONS OF ANY KIND, either express or implied.
+// See the License for the specific language governing permissions and
+// limitations under the License.
+
+//! Verification hook, compiled only with `--cfg anapaya_scion_sdk_verif`.
+//!
+//! Observation points for the synchronisation skeleton of the path manager (waiters, worker
+//! tasks, the managed-pair map). Nothing in here adds behaviour to the manager:
+//!
+//! * [`sync_event`] / [`event`] report that a linearisation point was passed. Events are stamped
+//!   from one global counter. [`sync_event`] is only called while the caller holds
+//!   `PathSetSharedState::sync` of the worker it describes and carries a snapshot of the state
+//!   protected by that lock.
+//! * [`map_guard`] serialises the operations on `managed_paths` (which are already mutually
+//!   exclusive per key inside `scc::HashIndex`) so that [`map_insert`], [`map_load`] and
+//!   [`map_remove`] are stamped in the order in which the map changed.
+//! * [`yield_point`] lets a harness perturb the schedule (sleep/yield) between critical sections.
+//! * [`VerifHandle`] gives access to the `PathSetHandle` of every worker created since the last
+//!   [`reset`], so that "every handle reports an error after drop" can be observed.
+//!
+//! Without an installed sink all functions return immediately.
+
+use std::{
+    sync::{
+        Arc, Mutex, MutexGuard, RwLock,
+        atomic::{AtomicU64, Ordering},
+    },
+    time::Duration,
+};
+
+use scion_sdk_utils::backoff::BackoffConfig;
+use sciparse::{identifier::isd_asn::IsdAsn, path::ScionPath};
+
+use super::{
+    MultiPathManagerConfig,
+    pathset::{PathSetHandle, PathSetSharedState, PathSetSyncState},
+};
+
+/// One observed linearisation point.
+#[derive(Debug, Clone)]
+pub struct Event {
+    /// Global sequence number, drawn while the lock protecting the described state is held.
+    pub seq: u64,
+    /// Event kind (`map_insert`, `map_load`, `map_remove`, `fetch_start`, `fetch_done`,
+    /// `exiting`, `exit_notify`, `worker_exit`, `caller_check`, `caller_woken`).
+    pub kind: &'static str,
+    /// Worker (path set) the event refers to; 0 if none.
+    pub worker: u64,
+    /// Tokio task that passed the point, if any.
+    pub task: Option<tokio::task::Id>,
+    /// Source of the pair (map events).
+    pub src: Option<IsdAsn>,
+    /// Destination of the pair (map events).
+    pub dst: Option<IsdAsn>,
+    /// Snapshot of the worker's shared state (only meaningful if `has_snapshot`).
+    pub snapshot: Snapshot,
+    /// Whether `snapshot` was taken under the `sync` lock.
+    pub has_snapshot: bool,
+    /// Free-form detail (exit reason).
+    pub note: &'static str,
+}
+
+/// State protected by `PathSetSharedState::sync`, plus the lock-free active slot.
+#[derive(Debug, Clone, Copy, Default, PartialEq, Eq)]
+pub struct Snapshot {
+    /// `initialized`
+    pub initialized: bool,
+    /// `ongoing_start.is_some()`
+    pub ongoing: bool,
+    /// `current_error.is_some()`
+    pub has_error: bool,
+    /// `active_path` is set
+    pub has_active: bool,
+}
+
+type Sink = Arc<dyn Fn(Event) + Send + Sync>;
+type Yield = Arc<dyn Fn(&'static str) + Send + Sync>;
+
+static SEQ: AtomicU64 = AtomicU64::new(0);
+static SINK: RwLock<Option<Sink>> = RwLock::new(None);
+static YIELD: RwLock<Option<Yield>> = RwLock::new(None);
+static MAP: Mutex<()> = Mutex::new(());
+static REGISTRY: Mutex<Vec<Arc<PathSetSharedState>>> = Mutex::new(Vec::new());
+
+/// Installs (or removes) the event sink.
+pub fn set_sink(sink: Option<Sink>) {
+    *SINK.write().unwrap_or_else(|e| e.into_inner()) = sink;
+}
+
+/// Installs (or removes) the yield-point callback.
+pub fn set_yield(f: Option<Yield>) {
+    *YIELD.write().unwrap_or_else(|e| e.into_inner()) = f;
+}
+
+/// Forgets all registered workers and restarts the sequence counter.
+pub fn reset() {
+    REGISTRY.lock().unwrap_or_else(|e| e.into_inner()).clear();
+    SEQ.store(0, Ordering::SeqCst);
+}
+
+/// Draws the next global sequence number (for events the harness emits itself).
+pub fn next_seq() -> u64 {
+    SEQ.fetch_add(1, Ordering::SeqCst) + 1
+}
+
+fn sink() -> Option<Sink> {
+    SINK.read().unwrap_or_else(|e| e.into_inner()).clone()
+}
+
+fn worker_id(shared: &Arc<PathSetSharedState>) -> u64 {
+    let reg = REGISTRY.lock().unwrap_or_else(|e| e.into_inner());
+    reg.iter()
+        .position(|s| Arc::ptr_eq(s, shared))
+        .map_or(0, |i| i as u64 + 1)
+}
+
+fn emit(
+    kind: &'static str,
+    worker: u64,
+    pair: Option<(IsdAsn, IsdAsn)>,
+    snapshot: Option<Snapshot>,
+    note: &'static str,
+) {
+    let Some(sink) = sink() else {
+        return;
+    };
+    sink(Event {
+        seq: next_seq(),
+        kind,
+        worker,
+        task: tokio::task::try_id(),
+        src: pair.map(|p| p.0),
+        dst: pair.map(|p| p.1),
+        snapshot: snapshot.unwrap_or_default(),
+        has_snapshot: snapshot.is_some(),
+        note,
+    });
+}
+
+fn snapshot_of(shared: &PathSetSharedState, state: &PathSetSyncState) -> Snapshot {
+    Snapshot {
+        initialized: state.initialized,
+        ongoing: state.ongoing_start.is_some(),
+        has_error: state.current_error.is_some(),
+        has_active: shared.active_path.load().is_some(),
+    }
+}
+
+/// Serialises operations on the managed-pair map while observed.
+pub fn map_guard() -> Option<MutexGuard<'static, ()>> {
+    sink()?;
+    Some(MAP.lock().unwrap_or_else(|e| e.into_inner()))
+}
+
+/// A new worker is about to be inserted for `(src, dst)` (bucket lock held).
+pub fn map_insert(shared: &Arc<PathSetSharedState>, src: IsdAsn, dst: IsdAsn) {
+    if sink().is_none() {
+        return;
+    }
+    let id = {
+        let mut reg = REGISTRY.lock().unwrap_or_else(|e| e.into_inner());
+        reg.push(shared.clone());
+        reg.len() as u64
+    };
+    emit("map_insert", id, Some((src, dst)), None, "");
+}
+
+/// An existing entry was found for `(src, dst)` (bucket lock held).
+pub fn map_load(shared: &Arc<PathSetSharedState>, src: IsdAsn, dst: IsdAsn) {
+    if sink().is_none() {
+        return;
+    }
+    emit("map_load", worker_id(shared), Some((src, dst)), None, "");
+}
+
+/// The entry of `(src, dst)` was removed from the map.
+pub fn map_remove(src: IsdAsn, dst: IsdAsn) {
+    emit("map_remove", 0, Some((src, dst)), None, "");
+}
+
+/// A point passed while holding `shared.sync`; `state` is the locked state.
+pub fn sync_event(kind: &'static str, shared: &Arc<PathSetSharedState>, state: &PathSetSyncState) {
+    if sink().is_none() {
+        return;
+    }
+    emit(
+        kind,
+        worker_id(shared),
+        None,
+        Some(snapshot_of(shared, state)),
+        "",
+    );
+}
+
+/// A point passed without holding a lock (task-local progress).
+pub fn event(kind: &'static str, shared: &Arc<PathSetSharedState>, note: &'static str) {
+    if sink().is_none() {
+        return;
+    }
+    emit(kind, worker_id(shared), None, None, note);
+}
+
+/// Schedule perturbation point.
+pub fn yield_point(name: &'static str) {
+    let f = YIELD.read().unwrap_or_else(|e| e.into_inner()).clone();
+    if let Some(f) = f {
+        f(name);
+    }
+}
+
+/// Handle of a registered worker.
+#[derive(Clone)]
+pub struct VerifHandle {
+    id: u64,
+    inner: PathSetHandle,
+}
+
+impl VerifHandle {
+    /// Worker id (1-based, in order of creation since the last [`reset`]).
+    pub fn id(&self) -> u64 {
+        self.id
+    }
+
+    /// `PathSetHandle::active_path`.
+    pub async fn active_path(&self) -> Option<ScionPath> {
+        self.inner.active_path().await.as_ref().map(|p| p.0.clone())
+    }
+
+    /// `PathSetHandle::try_active_path`.
+    pub fn try_active_path(&self) -> Option<ScionPath> {
+        self.inner.try_active_path().as_ref().map(|p| p.0.clone())
+    }
+
+    /// `PathSetHandle::current_error`, rendered.
+    pub fn current_error(&self) -> Option<String> {
+        self.inner.current_error().map(|e| e.to_string())
+    }
+
+    /// Reads the shared state without touching the usage flag.
+    pub fn snapshot(&self) -> Snapshot {
+        let guard = self.inner.shared.sync.lock().unwrap_or_else(|e| e.into_inner());
+        snapshot_of(&self.inner.shared, &guard)
+    }
+}
+
+/// Handles of all workers created since the last [`reset`], in order of creation.
+pub fn handles() -> Vec<VerifHandle> {
+    let reg = REGISTRY.lock().unwrap_or_else(|e| e.into_inner());
+    reg.iter()
+        .enumerate()
+        .map(|(i, s)| {
+            VerifHandle {
+                id: i as u64 + 1,
+                inner: PathSetHandle { shared: s.clone() },
+            }
+        })
+        .collect()
+}
+
+/// A manager configuration with every timing field chosen by the harness (the fetch-failure
+/// backoff has no public setter).
+pub fn config(
+    refetch_interval: Duration,
+    min_refetch_delay: Duration,
+    min_expiry_threshold: Duration,
+    max_idle_period: Duration,
+    backoff_min_secs: f32,
+    backoff_max_secs: f32,
+    backoff_factor: f32,
+) -> MultiPathManagerConfig {
+    MultiPathManagerConfig {
+        refetch_interval,
+        min_refetch_delay,
+        min_expiry_threshold,
+        max_idle_period,
+        fetch_failure_backoff: BackoffConfig {
+            minimum_delay_secs: backoff_min_secs,
+            maximum_delay_secs: backoff_max_secs,
+            factor: backoff_factor,
+            jitter_secs: 0.0,
+        },
+        ..MultiPathManagerConfig::default()
+    }
+}
